@@ -16,7 +16,7 @@ def S(xs):
 PROPS = "DeleteFrame RejectFrame ReadOnlyFrame ReadOnlyRejects ReopenIdentity CloseSaves DurableAfterFlush FlushSaves"
 
 
-def cfg(name, names, creates, slots, links, ones, acts, life=0, dims=0, steps=0, emit=None, res="any", when="always"):
+def cfg(name, names, creates, slots, links, ones, acts, life=0, dims=0, steps=0, emit=None, res="any", when="always", gen=0):
     open('MC_NixFile_%s.cfg' % name, 'w').write(f"""SPECIFICATION Spec
 CONSTANTS
   Names = {S(names)}
@@ -28,6 +28,7 @@ CONSTANTS
   MaxLife = {life}
   MaxDims = {dims}
   MaxSteps = {steps}
+  MaxGen = {gen}
   EmitActs = {S(emit if emit is not None else ALLACTS)}
   EmitRes = "{res}"
   EmitWhen = "{when}"
@@ -71,6 +72,13 @@ for tier, k in (("q", 3), ("t", 4)):
     A2 = ["Create", "Delete", "Link", "One", "Attr", "Type", "Def", "Dims", "Flush", "Close", "Open"]
     cfg("c02a_" + tier, N1, k, ["blocks", "arrays", "tags", "sections", "props"], ["refs"], ["metadata"], A2, life=2, dims=1, steps=k + 4, emit=["Open"])
     cfg("c02b_" + tier, N1, k, ["blocks", "arrays", "mtags", "features", "sources", "groups", "frames"], ["esources", "garrays"], ["extents", "data"], A2, life=2, dims=1, steps=k + 4, emit=["Open"])
+    # C02 focused: containers emptied and refilled / links replaced, then reopened (longer histories, few kinds)
+    LO = ["Close", "Open"]
+    cfg("c02c_" + tier, N1, 3, ["blocks", "arrays", "tags"], ["refs"], [], ["Create", "Link"] + LO, life=2, steps=k + 6, emit=["Open"], gen=2)
+    cfg("c02d_" + tier, N1, 4, ["blocks", "arrays", "sources", "groups"], ["esources", "garrays"], [], ["Create", "Link"] + LO, life=2, steps=k + 6, emit=["Open"], gen=2)
+    cfg("c02e_" + tier, N1, 3, ["blocks", "sections", "props"], [], ["metadata", "link"], ["Create", "Delete", "One"] + LO, life=2, steps=k + 5, emit=["Open"], gen=2)
+    cfg("c02f_" + tier, N1, 3, ["blocks", "arrays", "frames"], [], [], ["Create", "Delete", "Dims"] + LO, life=2, dims=2, steps=k + 5, emit=["Open"], gen=2)
+    cfg("c02g_" + tier, N1, 4, ["blocks", "arrays", "tags", "features"], [], ["data"], ["Create", "Delete", "One"] + LO, life=2, steps=k + 5, emit=["Open"], gen=2)
     # C09: every mutator in a read-only session
     A9 = ["Create", "CreateBad", "Delete", "Link", "One", "Attr", "Type", "Def", "Dims", "Close", "Open", "Flush"]
     E9 = [a for a in ALLACTS if a != "Crash"]
